@@ -329,6 +329,69 @@ def check_C01(tier):
         h = fs.History(inst, [("kill", round(rng.uniform(0.05, 0.9), 3))], label="external kill #%d" % k); h.accept = False
         hs.append(h)
     R.histories(inst, hs)
+    # ---- watched runs: a final path is polled from outside; whatever is seen there must be complete --------------
+    def watched(label, inst, watch_rel, other_fs=None):
+        d = scratch("watch"); od = None
+        try:
+            if other_fs:
+                od = os.path.join(other_fs, "verif_c01_" + os.path.basename(d))
+                os.makedirs(os.path.join(od, "o"))
+                for pr in inst["procs"]:
+                    if pr["kind"] != "src": pr["outdir"] = od + "/o/"
+                watch = [os.path.join(od, w) for w in watch_rel]
+            else:
+                watch = [os.path.join(d, w) for w in watch_rel]
+            prepare_dir(inst, d)
+            obs = fs.run_real_watch(inst, d, watch, timeout=90)
+            chk.evaluations += 1
+            for w, o in list(obs["first_sight"].items()) + list(obs["at_exit"].items()):
+                if not o["complete"]:
+                    chk.violation("%s: an incomplete file (%d bytes) was observed at the final path %s %s" % (label, o["size"], os.path.basename(w),
+                                  "while the workflow was running" if "t" in o else "after the workflow had exited with status %s" % obs["rc"]),
+                                  dict(instance=inst, observation=obs)); break
+            else:
+                chk.nontrivial.add("watched:" + label)
+            return obs
+        finally:
+            rmtree(d)
+            if od: rmtree(od)
+    # (a) a large output (slow to copy, instant to rename) on the same file system
+    big = FC(); big["ctl"] = {"a.pad": str(80 * 1024 * 1024)}
+    watched("80 MB output, same file system", big, ["o/a.out_1.txt"])
+    # (b) declared output on ANOTHER file system than the working directory (rename cannot be used; nothing may appear half-copied)
+    try:
+        other = "/dev/shm" if os.path.isdir("/dev/shm") and os.stat("/dev/shm").st_dev != os.stat(os.environ.get("VERIF_SCRATCH", "/tmp")).st_dev else None
+    except OSError:
+        other = None
+    if other:
+        big2 = FC(); big2["ctl"] = {"a.pad": str(150 * 1024 * 1024)}
+        watched("150 MB output declared on another file system", big2, ["o/a.out_1.txt"], other_fs=other)
+    else:
+        chk.notes.append("no second file system available: cross-device scenario skipped")
+    # (c) two concurrent tasks whose inputs have the same base name in different directories
+    twin = dict(name="TW", max=2, bufsize=2,
+                procs=[dict(name="s", kind="src", paths=["da/x.txt", "db/x.txt"]),
+                       dict(name="a", kind="cmd", ins=["in"], outs=["out"], outpaths={"out": "o/{i:in|dirname}.res.txt"})],
+                edges=[zoo.E("s.out", "a.in")], mkdirs=["da", "db"], ctl={"a:x@da.sleep": "0.1", "a:x@db.sleep": "0.8"})
+    def twin_run(k):
+        d = scratch("twin")
+        try:
+            prepare_dir(twin, d)
+            for sub in ("da", "db"):
+                open(os.path.join(d, sub, "x.txt"), "w").write("SRC %s\n" % sub)
+            return fs.run_real_watch(twin, d, [os.path.join(d, "o/da.res.txt"), os.path.join(d, "o/db.res.txt")], env={"VERIF_JITTER": str(k)}, timeout=30)
+        finally:
+            rmtree(d)
+    for obs in pmap(twin_run, range(6 if thorough else 3), workers=3):
+        chk.evaluations += 1
+        bad = [(w, o) for w, o in list(obs["first_sight"].items()) + list(obs["at_exit"].items()) if not o["complete"]]
+        if bad:
+            chk.violation("two concurrent tasks with equally named inputs in different directories: incomplete file at final path %s (%d bytes)" % (os.path.basename(bad[0][0]), bad[0][1]["size"]),
+                          dict(instance=twin, observation=obs))
+        elif obs["rc"] != 0:
+            chk.notes.append("twin-input workflow failed rc=%s: %s" % (obs["rc"], obs["stderr"][-120:]))
+        else:
+            chk.nontrivial.add("twin-inputs")
     # Go-function task written the documented way (task.OutIP(port).Write(data), examples/custom_execution_function)
     inst = dict(name="FW", max=1, bufsize=2, procs=[zoo.src("s", ["1"]), zoo.cmd("a", ["in"], ["out"], kind="gofunc_ipwrite")], edges=[zoo.E("s.out", "a.in")])
     rr = fc.real_runs(inst, [dict(env={}, bufsize=2, timeout=20)])[0]
